@@ -406,11 +406,14 @@ Definition is_het (gt : list Z) : bool :=
   match gt with [] => true | a :: t => negb (forallb (Z.eqb a) t) end.
 (* an output call: alleles, phased?, PS *)
 Definition call : Type := (list Z * bool * option Z)%type.
-(* in_gt: the input alleles of a sample that has superreads, [] if missing/partial.  pos = record.start
-   (0-based).  Existing phasing is removed (tag PS): alleles sorted, '/'.
-   The genotype is replaced if the phase column's multiset differs; the call is phased iff the position has a
-   component and a phase and the (possibly replaced) genotype is heterozygous; PS = component + 1. *)
-Definition write_call (comps : dict) (phases : list (Z * list Z)) (pos : Z) (in_gt : list Z) : call :=
+(* in_gt: the input alleles of a sample that has superreads ([] if missing/partial), in_ps its PS value.
+   pos = record.start (0-based).  Existing phasing is removed (tag PS): alleles sorted, '/'.
+   A record at which no sample has both a component and a phase is skipped: the old PS value stays (others = some
+   other sample is phased at this record).  Otherwise the genotype is replaced if the phase column's multiset
+   differs; the call is phased iff the position has a component and a phase and the (possibly replaced) genotype is
+   heterozygous, PS = component + 1; else PS is cleared. *)
+Definition write_call (comps : dict) (phases : list (Z * list Z)) (pos : Z) (in_gt : list Z) (in_ps : option Z)
+  (others : bool) : call :=
   let base := sortZ in_gt in
   match lookup_phase phases pos with
   | Some ph =>
@@ -418,37 +421,43 @@ Definition write_call (comps : dict) (phases : list (Z * list Z)) (pos : Z) (in_
       let gt := if changed then sortZ ph else base in
       match lookup comps pos with
       | Some c => if is_het (if changed then ph else in_gt) then (ph, true, Some (c + 1)) else (gt, false, None)
-      | None => (gt, false, None)
+      | None => if others then (gt, false, None) else (base, false, in_ps)
       end
-  | None => (base, false, None)
+  | None => (base, false, if others then None else in_ps)
   end.
-(* all records of one processed sample: (pos, in_gt) -> (pos, call) *)
-Definition sample_out (acc : list Z) (cols : list (list Z)) (cuts : list nat) (recs : list (Z * list Z))
+(* all records of one processed sample (the only sample with superreads): (pos, in_gt, in_ps) -> (pos, call) *)
+Definition inrec : Type := (Z * list Z * option Z)%type.
+Definition sample_out (acc : list Z) (cols : list (list Z)) (cuts : list nat) (recs : list inrec)
   : option (list (Z * call)) :=
   match components acc cuts with
-  | Some comps => Some (map (fun r => (fst r, write_call comps (phases_of acc cols) (fst r) (snd r))) recs)
+  | Some comps => Some (map (fun r => (fst (fst r), write_call comps (phases_of acc cols) (fst (fst r)) (snd (fst r))
+                                                      (snd r) false)) recs)
   | None => None
   end.
 
 (* -------------------------------------------------------------------- specification side, per sample *)
 (* One record as seen in input and output for one sample:
-   (pos (1-based), in_gt, out_gt, out_phased, out_ps).  Missing alleles are -1. *)
-Definition obs : Type := (Z * list Z * list Z * bool * option Z)%type.
-Definition o_pos (o : obs) := fst (fst (fst (fst o))).
-Definition o_in (o : obs) := snd (fst (fst (fst o))).
+   (pos (1-based), in_gt, in_ps, out_gt, out_phased, out_ps).  Missing alleles are -1. *)
+Definition obs : Type := (Z * list Z * option Z * list Z * bool * option Z)%type.
+Definition o_pos (o : obs) := fst (fst (fst (fst (fst o)))).
+Definition o_in (o : obs) := snd (fst (fst (fst (fst o)))).
+Definition o_inps (o : obs) := snd (fst (fst (fst o))).
 Definition o_out (o : obs) := snd (fst (fst o)).
 Definition o_phased (o : obs) := snd (fst o).
 Definition o_ps (o : obs) := snd o.
+Definition optZ_eqb (a b : option Z) : bool :=
+  match a, b with Some x, Some y => Z.eqb x y | None, None => true | _, _ => false end.
 
 (* genotype clause: a phased call lists exactly the input alleles with multiplicities, the input genotype is
    fully called and heterozygous, and it carries a phase set; an unphased call keeps the input alleles
-   (as a multiset: existing phasing of a processed sample is removed, alleles sorted) and has no phase set *)
+   (as a multiset: existing phasing of a processed sample is removed, alleles sorted) and its PS field is empty or
+   the untouched input value (the shared writer skips records without any new phase, as for diploid phasing) *)
 Definition gt_clause (o : obs) : bool :=
   if o_phased o
   then same_mset (o_out o) (o_in o) && negb (memZ undet (o_in o)) && is_het (o_in o)
        && match o_in o with [] => false | _ => true end
        && match o_ps o with Some _ => true | None => false end
-  else same_mset (o_out o) (o_in o) && match o_ps o with None => true | Some _ => false end.
+  else same_mset (o_out o) (o_in o) && (match o_ps o with None => true | Some _ => false end || optZ_eqb (o_ps o) (o_inps o)).
 
 Fixpoint index_ofZ (x : Z) (l : list Z) : option nat :=
   match l with
@@ -478,9 +487,9 @@ Definition sample_okb (acc : list Z) (os : list obs) : bool :=
   forallb gt_clause os && intervals_okb acc (phased_pairs os).
 
 (* observation built from the model's output for a processed sample (positions 0-based -> 1-based) *)
-Definition obs_of_model (recs : list (Z * list Z)) (outs : list (Z * call)) : list obs :=
-  map (fun ro => (fst (fst ro) + 1, snd (fst ro), fst (fst (snd (snd ro))), snd (fst (snd (snd ro))),
-                  snd (snd (snd ro)))) (combine recs outs).
+Definition obs_of_model (recs : list inrec) (outs : list (Z * call)) : list obs :=
+  map (fun ro => (fst (fst (fst ro)) + 1, snd (fst (fst ro)), snd (fst ro), fst (fst (snd (snd ro))),
+                  snd (fst (snd (snd ro))), snd (snd (snd ro)))) (combine recs outs).
 
 (* a sample that polyphase does not process on a chromosome (fewer than two heterozygous variants, no suitable
    read, not requested): its calls pass through untouched.  (in_gt, in_phased, in_ps) vs (out_gt, out_phased, out_ps) *)
@@ -491,3 +500,31 @@ Definition rawcall_eqb (a b : rawcall) : bool :=
 Definition untouched_okb (ins outs : list rawcall) : bool := list_eqb rawcall_eqb ins outs.
 (* everything else of the file (fixed fields, INFO, other FORMAT fields, other header lines), as interned tokens *)
 Definition frame_okb (a b : list (list Z)) : bool := list_eqb col_eqb a b.
+
+(* ------------------------------------------- algorithm.solve_polyphase_instance / phase_single_block: envelope *)
+(* The set of haplotype matrices the block pipeline can return for a genotype list, as a relation (clustering,
+   threading, the likelihood arg-max, link likelihoods, the ILP are arbitrary; only the data flow is fixed):
+   the instance is cut into blocks; a block with one variant gets the sorted genotype; any other block starts from
+   ARBITRARY threaded columns `init` (k alleles each), is forced onto the genotypes (force envelope), has the solved
+   sub-instances (recursive calls with ploidy = number of covered threads and sub-genotype = the covered alleles)
+   written back, and is reordered by assignments that are permutations.  d bounds the recursion depth. *)
+Definition block_general (fb : fallback) (rec : nat -> list (list Z) -> list (list Z) -> Prop) (k : nat)
+  (bg bc : list (list Z)) : Prop :=
+  exists (init forced : list (list Z)) (subs : list subres) (integ : list (list Z)) (bps : list nat) (pms : list (list nat)),
+    length init = length bg /\ Forall (fun c => length c = k) init /\
+    in_force_envelope fb bg init forced = true /\
+    Forall (fun s => sub_wfb k (length forced) s = true) subs /\ subs_disjointb subs = true /\
+    Forall (fun s => rec (length (sr_threads s)) (sub_genotypes forced s) (sr_cols s)) subs /\
+    integrate forced subs = Some integ /\
+    Forall (fun p => is_permb k p = true) pms /\
+    permute_blocks_cols k integ bps pms = Some bc.
+
+Fixpoint SolvesN (fb : fallback) (d : nat) (k : nat) (gs cols : list (list Z)) : Prop :=
+  match d with
+  | O => False
+  | S d' =>
+      exists blocks : list (list (list Z) * list (list Z)),
+        gs = concat (map fst blocks) /\ cols = concat (map snd blocks) /\
+        Forall (fun b => (exists g, fst b = [g] /\ snd b = singleton_cols g)
+                         \/ block_general fb (SolvesN fb d') k (fst b) (snd b)) blocks
+  end.
